@@ -240,19 +240,23 @@ def _big_stack():
             pass
 
 
-def run_sharded(binary, lines, workdir, tag, shards=NPROC, timeout=3600, env=None, args=(), per_shard=64):
-    """Feeds `lines` to `binary` over `shards` parallel processes; returns the output lines in order."""
+def run_sharded(binary, lines, workdir, tag, shards=NPROC, timeout=3600, env=None, args=(), per_shard=64, groups_out=None):
+    """Feeds `lines` to `binary` over `shards` parallel processes; returns the output lines in order.
+    Lines are dealt out round-robin (expensive cases that a generator emits next to each other are spread over
+    the processes); groups_out, if given, receives the index list each process worked through, in order."""
     n = len(lines)
     if n == 0:
         return []
     shards = max(1, min(shards, (n + per_shard - 1) // per_shard))
-    per = (n + shards - 1) // shards
+    groups = [list(range(i, n, shards)) for i in range(shards)]
+    if groups_out is not None:
+        groups_out[:] = groups
     procs = []
     e = dict(os.environ)
     if env:
         e.update(env)
     for i in range(shards):
-        chunk = lines[i * per:(i + 1) * per]
+        chunk = [lines[j] for j in groups[i]]
         if not chunk:
             continue
         inp = os.path.join(workdir, "%s.in.%d" % (tag, i))
@@ -263,10 +267,10 @@ def run_sharded(binary, lines, workdir, tag, shards=NPROC, timeout=3600, env=Non
         fo = open(outp, "w")
         p = subprocess.Popen([binary] + list(args), stdin=fi, stdout=fo, stderr=subprocess.DEVNULL, env=e,
                              preexec_fn=_big_stack)
-        procs.append((p, fi, fo, outp, len(chunk)))
-    res = []
+        procs.append((p, fi, fo, outp, len(chunk), groups[i]))
+    res = [None] * n
     deadline = time.time() + timeout
-    for p, fi, fo, outp, cnt in procs:
+    for p, fi, fo, outp, cnt, idx in procs:
         try:
             p.wait(timeout=max(1, deadline - time.time()))
         except subprocess.TimeoutExpired:
@@ -278,8 +282,9 @@ def run_sharded(binary, lines, workdir, tag, shards=NPROC, timeout=3600, env=Non
             got.pop()
         if len(got) < cnt:
             got += ["EXECUTOR-DIED rc=%s" % p.returncode] * (cnt - len(got))
-        res += got[:cnt]
-    return res
+        for j, x in zip(idx, got[:cnt]):
+            res[j] = x
+    return [x if x is not None else "EXECUTOR-DIED rc=?" for x in res]
 
 
 # ---------------------------------------------------------------------------------------------
